@@ -334,6 +334,15 @@ Definition url_port (netloc : pystr) : option (option N) :=
                  else None
   end.
 
+(* do_MOVE: to_url.netloc, with the scheme's default port appended when to_url.port is None;
+   None = .port raises ValueError *)
+Definition netloc_with_port (scheme netloc : pystr) : option pystr :=
+  match url_port netloc with
+  | None => None
+  | Some (Some _) => Some netloc
+  | Some None => Some (netloc ++ (if eqs scheme (str "https") then str ":443" else str ":80"))
+  end.
+
 (* the multiget decoding before fix C18-urlsplit *)
 Definition decode_multiget_legacy (base href : pystr) : dres :=
   match urlparse href with
@@ -349,13 +358,9 @@ Definition decode_destination (server_netloc base dest : pystr) : dres :=
   | UValueError => DRaise
   | UOutside => DOutside
   | UOk u =>
-      match url_port (u_netloc u) with
+      match netloc_with_port (u_scheme u) (u_netloc u) with
       | None => DRaise
-      | Some port =>
-          let with_port := match port with
-                           | Some _ => u_netloc u
-                           | None => u_netloc u ++ (if eqs (u_scheme u) (str "https") then str ":443" else str ":80")
-                           end in
+      | Some with_port =>
           if negb (eqs with_port server_netloc) then DRemote
           else strip_base base (sanitize_path (unquote (u_path u)))
       end
@@ -367,13 +372,9 @@ Definition decode_destination_legacy (server_netloc base dest : pystr) : dres :=
   | UValueError => DRaise
   | UOutside => DOutside
   | UOk u =>
-      match url_port (u_netloc u) with
+      match netloc_with_port (u_scheme u) (u_netloc u) with
       | None => DRaise
-      | Some port =>
-          let with_port := match port with
-                           | Some _ => u_netloc u
-                           | None => u_netloc u ++ (if eqs (u_scheme u) (str "https") then str ":443" else str ":80")
-                           end in
+      | Some with_port =>
           if negb (eqs with_port server_netloc) then DRemote
           else strip_base base (sanitize_path (u_path u))
       end
